@@ -1,4 +1,6 @@
 CONSTANT CfgSel = "all"
+CONSTANT PairAll = FALSE
+CONSTANT CodeInTable = FALSE
 INIT Init
 NEXT Next
 INVARIANT Export
